@@ -39,6 +39,18 @@ theorem inmem_cap : Gen.Blobstore.inmemCapCalls = ["bs.mutex.Lock", "bs.mutex.Un
     ∧ Gen.Blobstore.inmemPutStmts = ["ver := uuid.New().String()", "data, err := io.ReadAll(reader)", "if err != nil",
         "return \"\", err", "bs.blobs[key] = data", "bs.versions[key] = ver", "return ver, nil"]
     ∧ Gen.Blobstore.inmemGetSlices = ["val[posBR.offset:]", "val[posBR.offset : posBR.offset+posBR.length]"] := by decide
+/-- git-backed store: `CheckAndPutManifest` runs `build` inside the retry loop (fetch → build → update
+ref → push with a lease on the *fetched* head → retry on lease failure), and the comparison of the
+expected with the fetched manifest version is a top-level statement of `build` — executed on
+EVERY attempt, not guarded by the cached-plan test.  This is the `checkEvery = true` instance of
+`Blobstore.capRetry`, for which `C42.capRetry_is_cap` holds. -/
+theorem git_cap_revalidates :
+    Gen.Blobstore.gitCapClosureTopLevel = ["actualKeyVersion, err := gbs.currentKeyVersion(ctx, remoteHead, ok, key)",
+      "if err != nil", "if expectedVersion != actualKeyVersion", "if cachedPlan == nil", "return"]
+    ∧ Gen.Blobstore.gitCapVersionChecks = ["expectedVersion != actualKeyVersion | enclosed by: "]
+    ∧ Gen.Blobstore.gitRetryLoopCalls = ["gbs.writeMu.Lock", "gbs.fetchAlignAndMergeForWrite", "build", "gbs.api.UpdateRef",
+        "gbs.api.PushRefWithLease", "backoff.Retry"]
+    ∧ Gen.Blobstore.gitPushLeaseArgs = ["ctx", "gbs.remoteName", "gbs.localRef", "gbs.remoteRef", "remoteHead"] := by decide
 /-- NBS on a blobstore commits its manifest through CheckAndPutManifest -/
 theorem nbs_uses_cap : Gen.Blobstore.bsManifestCapCalls = ["updateBSWithChecker:bs.CheckAndPutManifest"] := by decide
 
